@@ -539,8 +539,26 @@ def the_names_listed_so_far_grow_by_exactly_this_one(done, DONE0, PATH):
 
 # ---- chain walk with repeats: a file found in a member is handed on under its name relative to the member's prefix
 RELPATH = UninterpFn('relpath', z3.StringSort(), z3.StringSort(), z3.StringSort())
+
+
+def _outer_body_before_inner_loop(fn):
+    """What one pass of the loop over the members computes before it walks the member (full_folder and any other local
+    the inner loop uses), so that the inner iteration below sees every local the real code defines."""
+    import ast
+    outer = [st for st in fn.body if isinstance(st, ast.For)]
+    if len(outer) != 1:
+        return []
+    out = []
+    for st in outer[0].body:
+        if isinstance(st, ast.For):
+            return out
+        out.append(st)
+    return []
+
+
 chain_repeat = REG.add(_Lemma('FileSystemChain.walk_folder_repeat.one_file', PROP,
-                              [{'body': f'{M}:FileSystemChain.walk_folder_repeat', 'loop': 1,
+                              [{'stmts': f'{M}:FileSystemChain.walk_folder_repeat', 'select': _outer_body_before_inner_loop},
+                               {'body': f'{M}:FileSystemChain.walk_folder_repeat', 'loop': 1,
                                 'closure': {'__yielded__': 'YIELDED'}}],
                               inline=('File.__init__',)))
 
@@ -550,6 +568,8 @@ def _(h):
     def path_model(I_, fname, *a):
         if fname == 'relpath' and len(a) == 2:
             return RELPATH.decl(to_z3(a[0]), to_z3(a[1]))
+        if fname == 'join' and len(a) == 2:
+            return JOINP.decl(to_z3(a[0]), to_z3(a[1]))
         from pyvc.symexec import Unsupported
         raise Unsupported(fname)
     h.I.path_model = path_model
@@ -557,9 +577,9 @@ def _(h):
     found = Obj('File', dict(path=h.str('member_path'), sys=member, _data=None), module=M)
     chain = Obj('FileSystemChain', dict(systems=PList([]), path=''), module=M)
     prefix = h.str('prefix')
-    # every local of the enclosing function is supplied, so a body that (wrongly) uses another one is still decided
+    # the statements of the outer loop body run first, so every local the inner loop uses exists (also ones a change adds)
     return {'locals': {'self': chain, 'file': found, 'prefix': prefix, 'sys': member, 'YIELDED': [],
-                       'folder': h.str('folder0'), 'full_folder': h.str('full_folder')},
+                       'folder': h.str('folder0')},
             'ghost': dict(FOUND=found, PREFIX=prefix, CHAIN=chain, MEMBER_PATH=h.symbols['member_path'])}
 
 
@@ -901,7 +921,7 @@ def _job_chain(spec):
 
 
 @bounded('C19.B-chains', bound='chains of 1..3 (thorough: ..4) in-memory members, each holding a subset of {x.txt, '
-         'cfg/x.txt, hl2/cfg/x.txt, ep2/cfg/x.txt, sub/x.txt, CFG/X.TXT} with prefix "" / hl2 / hl2/ / hl2/cfg / ep2 / sub; all '
+         'cfg/x.txt, hl2/cfg/x.txt, ep2/cfg/x.txt, sub/x.txt, CFG/X.TXT} with prefix "" / hl2 / hl2/ / hl2/cfg / ep2 / sub (+ two single-member chains with the prefix spelled HL2 and hl2\\cfg); all '
          'orders; chains built by add_sys histories over 2-3 of 4 members (every member added at least once, up to 1 (thorough '
          '2) re-additions, every priority flag combination; quick: an even sample of 4000)',
          rule='one case per chain; non-trivial when two members expose the same chain-relative name')
@@ -912,6 +932,8 @@ def b_chains(ctx):
             (('hl2/cfg/x.txt', 'hl2/y.txt'), 'hl2/'), (('hl2/cfg/x.txt', 'hl2/cfg/z.txt'), 'hl2/cfg')]
     maxn = 4 if ctx.thorough else 3
     jobs = [tuple(p) for n in range(1, maxn + 1) for p in itertools.permutations(pool, n)]
+    # a member's prefix spelled in another case / with the other slash than the names it holds (lookups accept it)
+    jobs += [((('hl2/cfg/x.txt', 'hl2/y.txt'), 'HL2'),), ((('hl2/cfg/x.txt', 'hl2/cfg/z.txt'), 'hl2\\cfg'),)]
     hjobs = []
     for job, bad in ctx.pmap(_job_chain, jobs, batch=1024):
         ctx.case(job, nontrivial=len(job) > 1)
